@@ -129,7 +129,10 @@ def run_job(job, ctx):
     sc = scripts()
     for j in range(job["n"]):
         r = rng("c11", job["seed"], job["i"], j, fl)
-        s = scenario.gen_scenario(r, sc)
+        if job["i"] % 25 == 7 and j == 0:
+            s = scenario.gen_scenario(r, sc, nfiles=r.choice([70, 150, 300]), min_blocks=1, max_blocks=2)     # a wide repository
+        else:
+            s = scenario.gen_scenario(r, sc)
         diff = scenario.add_affects(r, s) if r.random() < 0.5 else None
         out.append(judge(ctx, s, fl, dict(job, j=j), diff=diff or None))
     return out
